@@ -51,6 +51,9 @@ template <class Img, std::size_t... D> void fills(const char* types, int w, int 
             J("Cum").str("types", types).raw("hist", hist_json(hist)).raw("cum", hist_json(cum)).emit();
             H nh = hist; nh.normalize();
             J("Norm").str("types", types).raw("hist", hist_json(hist)).raw("norm", hist_json(nh, 1048576.0)).emit();
+            // cumulative histogram of non-integral bins (the normalised histogram), all axes
+            auto cn = gil::cumulative_histogram(nh);
+            J("CumNorm").str("types", types).raw("norm", hist_json(nh, 1048576.0)).raw("cum", hist_json(cn, 1048576.0)).emit();
         }
     }
 }
@@ -79,6 +82,14 @@ static void stdfill(int w, int h, vt::Rng& rng) {
     { std::vector<int> v; gil::fill_histogram(gil::const_view(img), v); std::vector<std::pair<long long, long long>> c; for (size_t i = 0; i < v.size(); ++i) c.push_back({(long long)i, v[i]}); dump("vector", c); }
     { std::array<int, 256> a{}; gil::fill_histogram(gil::const_view(img), a); std::vector<std::pair<long long, long long>> c; for (size_t i = 0; i < a.size(); ++i) c.push_back({(long long)i, a[i]}); dump("array", c); }
     { std::map<int, int> m; gil::fill_histogram(gil::const_view(img), m); std::vector<std::pair<long long, long long>> c; for (auto& kv : m) c.push_back({kv.first, kv.second}); dump("map", c); }
+    // 16-bit samples: one bin per value (including the values k*257 and their neighbours, where a scaled index is most fragile)
+    { gil::gray16_image_t i16(w, h); int n = 0; for (auto& p : gil::view(i16)) { int r = rng.below(4); p = gil::gray16_pixel_t((uint16_t)(r == 0 ? 257 * rng.below(256) : r == 1 ? 257 + 4 * rng.below(16000) : rng.below(65536))); ++n; }
+      gil::histogram<unsigned short> h16; gil::fill_histogram<0>(gil::const_view(i16), h16, 1);
+      auto dump16 = [&](const char* kind, std::vector<std::pair<long long, long long>> c) { std::string s = "["; for (size_t i = 0; i < c.size(); ++i) { if (i) s += ','; s += "[" + std::to_string(c[i].first) + "," + std::to_string(c[i].second) + "]"; } s += "]";
+          J("Std").str("kind", kind).raw("hist", hist_json(h16)).raw("cont", s).emit(); };
+      { static std::array<int, 65536> a; a.fill(0); gil::fill_histogram(gil::const_view(i16), a); std::vector<std::pair<long long, long long>> c; for (size_t i = 0; i < a.size(); ++i) if (a[i]) c.push_back({(long long)i, a[i]}); dump16("array16", c); }
+      { std::vector<int> v; gil::fill_histogram(gil::const_view(i16), v); std::vector<std::pair<long long, long long>> c; for (size_t i = 0; i < v.size(); ++i) if (v[i]) c.push_back({(long long)i, v[i]}); dump16("vector16", c); }
+      { std::map<int, int> m; gil::fill_histogram(gil::const_view(i16), m); std::vector<std::pair<long long, long long>> c; for (auto& kv : m) c.push_back({kv.first, kv.second}); dump16("map16", c); } }
     // containers that already hold counts (of another length / other keys): without accumulate the previous contents are replaced
     for (size_t n0 : {(size_t)7, (size_t)256, (size_t)300, (size_t)65536}) { std::vector<int> v(n0, 3); gil::fill_histogram(gil::const_view(img), v); std::vector<std::pair<long long, long long>> c; for (size_t i = 0; i < v.size(); ++i) if (v[i] != 0 || i < 256) c.push_back({(long long)i, v[i]}); dump("vector_reused", c); }
     { std::array<int, 256> a; a.fill(9); gil::fill_histogram(gil::const_view(img), a); std::vector<std::pair<long long, long long>> c; for (size_t i = 0; i < a.size(); ++i) c.push_back({(long long)i, a[i]}); dump("array_reused", c); }
